@@ -1,10 +1,13 @@
 package main
 
 import (
+	"context"
 	"fmt"
 	"os"
 	"sync"
 	"time"
+
+	standardrules "github.com/attestantio/dirk/rules/standard"
 )
 
 // The request being served is written down before it is handed to the instance (last_request.txt in the output
@@ -19,10 +22,10 @@ var watch struct {
 	once  sync.Once
 }
 
-func watchInit(outDir string) {
+func watchInit(outDir string, limit time.Duration) {
 	watch.mu.Lock()
 	watch.path = outDir + "/last_request.txt"
-	watch.limit = 150 * time.Second
+	watch.limit = limit
 	watch.mu.Unlock()
 	_ = os.Remove(outDir + "/last_request.txt")
 	watch.once.Do(func() {
@@ -60,4 +63,31 @@ func requestDone() {
 	}
 	watch.text = ""
 	_ = os.Remove(watch.path)
+}
+
+// The rules service starts a goroutine that waits for its context to end (to close the store then) and so keeps the
+// whole store reachable for as long as that context lives.  The daemon has one such service per process; the harness
+// opens thousands, so each gets a context of its own that ends when the service is closed.
+var rulesCancel sync.Map // *standardrules.Service -> context.CancelFunc
+
+func newRules(ctx context.Context, params ...standardrules.Parameter) (*standardrules.Service, error) {
+	cctx, cancel := context.WithCancel(ctx)
+	svc, err := standardrules.New(cctx, params...)
+	if err != nil {
+		cancel()
+		return nil, err
+	}
+	rulesCancel.Store(svc, cancel)
+	return svc, nil
+}
+
+func closeRules(ctx context.Context, svc *standardrules.Service) error {
+	if svc == nil {
+		return nil
+	}
+	err := svc.Close(ctx)
+	if c, ok := rulesCancel.LoadAndDelete(svc); ok {
+		c.(context.CancelFunc)()
+	}
+	return err
 }
